@@ -433,6 +433,9 @@ def _private_generators(env, cfg):
     shared = getattr(core.PATH_RESET_HOOKS[0], 'functions', []) if core.PATH_RESET_HOOKS else []
     env.claim('no_mutable_object_shared_through_default_arguments', not shared,
               detail=f"evaluated once at import and shared by every instance in the process: {shared}")
+    containers = getattr(core.PATH_RESET_HOOKS[0], 'shared_containers', []) if core.PATH_RESET_HOOKS else []
+    env.claim('no_mutable_container_on_a_class_or_module', not containers,
+              detail=f"process-wide mutable state shared by all instances: {containers}")
 
 
 def _tree_seed(env, cfg):
